@@ -267,3 +267,15 @@ def koyama_w(k, n, p):
 def make_qty(registry, magnitude, unit):
     """The quantity `magnitude unit` in the given pint registry (spec language; pint itself is trusted)."""
     return registry.Quantity(magnitude, unit)
+
+
+def array_sum(lo, hi, fn):
+    """sum_{t=lo}^{hi-1} fn(t) for array- or scalar-valued fn (spec language).  Symbolically: an uninterpreted finite
+    sum, matched with the corresponding accumulation loop of the code (pyvc.interp.summarise_sum)."""
+    acc = None
+    for t in range(int(lo), int(hi)):
+        v = fn(t)
+        acc = v if acc is None else acc + v
+    if acc is None:
+        raise PreconditionViolated('empty sum')
+    return acc
